@@ -21,7 +21,7 @@ func (fr *Frame) exec(in ssa.Instruction, st *State) error {
 		elem := x.Type().(*types.Pointer).Elem()
 		if fr.heapCell[x] {
 			var akey string
-			if arr, ok := elem.Underlying().(*types.Array); ok {
+			if arr, ok := under(elem).(*types.Array); ok {
 				akey = elemKey(c.sortOf(arr.Elem()))
 			} else {
 				akey = heapKey(c.sortOf(elem))
@@ -57,7 +57,7 @@ func (fr *Frame) exec(in ssa.Instruction, st *State) error {
 		if fa, ok := x.Addr.(*ssa.FieldAddr); ok && fr.con != nil && len(fr.con.Sinks) > 0 {
 			// field assignments are addressable as sinks: `call store.<field> #n requires E` with
 			// arg(0) = the struct pointer, arg(1) = the value stored
-			if stT, ok := fa.X.Type().Underlying().(*types.Pointer).Elem().Underlying().(*types.Struct); ok {
+			if stT, ok := under(fa.X.Type()).(*types.Pointer).Elem().Underlying().(*types.Struct); ok {
 				kind := "store." + stT.Field(fa.Field).Name()
 				base := fr.val(fa.X, st)
 				var bt Term
@@ -80,7 +80,7 @@ func (fr *Frame) exec(in ssa.Instruction, st *State) error {
 				} else {
 					fr.cellClo[l.key] = sv.Clo
 				}
-			} else if _, isFn := x.Val.Type().Underlying().(*types.Signature); isFn {
+			} else if _, isFn := under(x.Val.Type()).(*types.Signature); isFn {
 				fr.cellClo[l.key] = nil
 			}
 		}
@@ -98,8 +98,8 @@ func (fr *Frame) exec(in ssa.Instruction, st *State) error {
 	case *ssa.FieldAddr:
 		base := fr.addrOf(x.X, st)
 		fr.nilCheckAddr(x.X, base, x.Pos(), st)
-		st0 := x.X.Type().Underlying().(*types.Pointer).Elem()
-		ft := st0.Underlying().(*types.Struct).Field(x.Field).Type()
+		st0 := under(x.X.Type()).(*types.Pointer).Elem()
+		ft := under(st0).(*types.Struct).Field(x.Field).Type()
 		fr.env[x] = &Val{L: extend(base, pathStep{field: x.Field, inT: st0}, ft)}
 		return nil
 	case *ssa.Field:
@@ -180,7 +180,7 @@ func (fr *Frame) exec(in ssa.Instruction, st *State) error {
 		ln, cp := fr.idxTerm(x.Len, st), fr.idxTerm(x.Cap, st)
 		z := c.sc.idxLit(0)
 		fr.safetyOb("make-len", "", and(c.le(z, ln), c.le(ln, cp)), x.Pos(), "make([]T, len, cap): 0 <= len <= cap")
-		et := x.Type().Underlying().(*types.Slice).Elem()
+		et := under(x.Type()).(*types.Slice).Elem()
 		es := c.sortOf(et)
 		r := c.newRefIn("mkslice", elemKey(es))
 		k := c.regElem(es)
@@ -190,7 +190,7 @@ func (fr *Frame) exec(in ssa.Instruction, st *State) error {
 		return nil
 	case *ssa.MakeMap:
 		r := c.newRef("mkmap")
-		mt := x.Type().Underlying().(*types.Map)
+		mt := under(x.Type()).(*types.Map)
 		ks, vs := c.sortOf(mt.Key()), c.sortOf(mt.Elem())
 		dk, _ := c.regMap(ks, vs)
 		empty := Term{fmt.Sprintf("((as const %s) false)", arraySort(ks, SBool)), arraySort(ks, SBool)}
@@ -213,7 +213,7 @@ func (fr *Frame) exec(in ssa.Instruction, st *State) error {
 	case *ssa.MapUpdate:
 		m := fr.term(x.Map, st)
 		fr.safetyOb("nil-map-write", "", not(eq(m, Term{"nil_ref", SRef})), x.Pos(), "assignment to entry in nil map")
-		mt := x.Map.Type().Underlying().(*types.Map)
+		mt := under(x.Map.Type()).(*types.Map)
 		ks, vs := c.sortOf(mt.Key()), c.sortOf(mt.Elem())
 		dk, vk := c.regMap(ks, vs)
 		k, v := fr.term(x.Key, st), fr.term(x.Value, st)
@@ -330,7 +330,7 @@ func describeOrigin(v ssa.Value) string {
 				return "local " + a.Comment
 			}
 			if fa, ok := x.X.(*ssa.FieldAddr); ok {
-				st := fa.X.Type().Underlying().(*types.Pointer).Elem().Underlying().(*types.Struct)
+				st := under(fa.X.Type()).(*types.Pointer).Elem().Underlying().(*types.Struct)
 				return "field " + st.Field(fa.Field).Name()
 			}
 		}
@@ -502,7 +502,7 @@ func (c *FuncCtx) valEq(a, b Term, t types.Type) Term {
 // goEq: Go's == on arrays and structs compares elements / fields in range only (SMT array
 // equality would also compare the unused indices).
 func (c *FuncCtx) goEq(a, b Term, t types.Type) Term {
-	switch u := t.Underlying().(type) {
+	switch u := under(t).(type) {
 	case *types.Array:
 		es := c.sortOf(u.Elem())
 		if u.Len() <= 64 {
@@ -643,14 +643,14 @@ func (fr *Frame) execIndexAddr(x *ssa.IndexAddr, st *State) error {
 	i := fr.idxTerm(x.Index, st)
 	c.noteIndexTerm(i)
 	z := c.sc.idxLit(0)
-	switch t := x.X.Type().Underlying().(type) {
+	switch t := under(x.X.Type()).(type) {
 	case *types.Slice:
 		s := fr.term(x.X, st)
 		fr.safetyOb("index", "", and(c.le(z, i), c.lt(i, c.slLen(s))), x.Pos(), "slice index in range")
 		idx := c.sc.define("ix", c.add(c.slOff(s), i))
 		fr.env[x] = &Val{L: &LVal{kind: rkElems, ref: slPtr(s), rootT: t.Elem(), typ: t.Elem(), path: []pathStep{{idx: &idx, inT: t.Elem(), isElem: true}}}}
 	case *types.Pointer: // pointer to array
-		arr := t.Elem().Underlying().(*types.Array)
+		arr := under(t.Elem()).(*types.Array)
 		base := fr.addrOf(x.X, st)
 		fr.nilCheckAddr(x.X, base, x.Pos(), st)
 		fr.safetyOb("index", "", and(c.le(z, i), c.lt(i, c.sc.idxLit(arr.Len()))), x.Pos(), "array index in range")
@@ -671,7 +671,7 @@ func (fr *Frame) execIndex(x *ssa.Index, st *State) error {
 	i := fr.idxTerm(x.Index, st)
 	z := c.sc.idxLit(0)
 	v := fr.term(x.X, st)
-	switch t := x.X.Type().Underlying().(type) {
+	switch t := under(x.X.Type()).(type) {
 	case *types.Array:
 		fr.safetyOb("index", "", and(c.le(z, i), c.lt(i, c.sc.idxLit(t.Len()))), x.Pos(), "array index in range")
 		fr.setVal(x, c.sc.define(x.Name(), sel(v, i, c.sortOf(t.Elem()))))
@@ -698,7 +698,7 @@ func (c *FuncCtx) strAt(s, i Term) Term {
 
 func (fr *Frame) execLookup(x *ssa.Lookup, st *State) error {
 	c := fr.c
-	switch t := x.X.Type().Underlying().(type) {
+	switch t := under(x.X.Type()).(type) {
 	case *types.Map:
 		m := fr.term(x.X, st)
 		k := fr.term(x.Index, st)
@@ -733,7 +733,7 @@ func (fr *Frame) execSlice(x *ssa.Slice, st *State) error {
 		}
 		return fr.idxTerm(v, st)
 	}
-	switch t := x.X.Type().Underlying().(type) {
+	switch t := under(x.X.Type()).(type) {
 	case *types.Slice:
 		s := fr.term(x.X, st)
 		lo := opt(x.Low, z)
@@ -755,7 +755,7 @@ func (fr *Frame) execSlice(x *ssa.Slice, st *State) error {
 		c.assumeG(implies(and(eq(lo, z), eq(hi, c.strlen(s))), eq(r, s)))
 		fr.setVal(x, r)
 	case *types.Pointer: // pointer to array
-		arr := t.Elem().Underlying().(*types.Array)
+		arr := under(t.Elem()).(*types.Array)
 		base := fr.addrOf(x.X, st)
 		n := c.sc.idxLit(arr.Len())
 		lo := opt(x.Low, z)
@@ -781,7 +781,7 @@ func (fr *Frame) execTypeAssert(x *ssa.TypeAssert, st *State) error {
 	c := fr.c
 	v := fr.term(x.X, st)
 	var ok, res Term
-	if _, isIface := x.AssertedType.Underlying().(*types.Interface); isIface {
+	if _, isIface := under(x.AssertedType).(*types.Interface); isIface {
 		name := "implements_" + sanitize(types.TypeString(x.AssertedType, nil))
 		c.sc.declFun(name, []Sort{SInt}, SBool)
 		ok = and(not(eq(ifTag(v), Term{"0", SInt})), mk(SBool, name, ifTag(v)))
@@ -839,18 +839,18 @@ func (fr *Frame) execConvert(x *ssa.Convert, st *State) error {
 		st.set(k, c.sc.define("elems", sto(c.get(st, k), r, mk(arraySort(c.sc.idxSort(), bs), "str_bytes", v))))
 		fr.setVal(x, s)
 	default:
-		c.unmodelled[fmt.Sprintf("conversion %s -> %s", from.Underlying(), to.Underlying())] = true
+		c.unmodelled[fmt.Sprintf("conversion %s -> %s", under(from), under(to))] = true
 		fr.setVal(x, c.freshOfType("conv", to))
 	}
 	return nil
 }
 
 func isSliceOfBytes(t types.Type) bool {
-	s, ok := t.Underlying().(*types.Slice)
+	s, ok := under(t).(*types.Slice)
 	if !ok {
 		return false
 	}
-	b, ok := s.Elem().Underlying().(*types.Basic)
+	b, ok := under(s.Elem()).(*types.Basic)
 	return ok && (b.Kind() == types.Uint8 || b.Kind() == types.Int32)
 }
 
@@ -899,7 +899,7 @@ func (fr *Frame) execNext(x *ssa.Next, st *State) error {
 		fr.env[x] = r
 		return nil
 	}
-	if mt, isMap := rng.X.Type().Underlying().(*types.Map); isMap && !x.IsString {
+	if mt, isMap := under(rng.X.Type()).(*types.Map); isMap && !x.IsString {
 		m := fr.term(rng.X, st)
 		ks, vs := c.sortOf(mt.Key()), c.sortOf(mt.Elem())
 		dk, vk := c.regMap(ks, vs)
@@ -962,7 +962,7 @@ func (fr *Frame) pseudoSinkKind(kind string, in ssa.Instruction, args []TV, st *
 				if !ok {
 					continue
 				}
-				stT, ok := fa.X.Type().Underlying().(*types.Pointer).Elem().Underlying().(*types.Struct)
+				stT, ok := under(fa.X.Type()).(*types.Pointer).Elem().Underlying().(*types.Struct)
 				if ok && "store."+stT.Field(fa.Field).Name() == kind {
 					recs = append(recs, rec{i2, i2.Pos(), b.Index, ii})
 				}
